@@ -136,3 +136,84 @@ Fixpoint erun (fixed : rule) (local : bytes) (st : estate) (evs : list eevent)
       let '(st2, acc) := erun fixed local st1 evs' in
       (st2, match o with Some x => x :: acc | None => acc end)
   end.
+
+
+(* ---------------------------------------------------------------- the flags kept as a summary *)
+
+(* The per-epoch flags replayAccepted[] can be kept as a two-field summary (one epoch + "is set",
+   here [option N]) - provided the summary is the HIGHEST epoch in which a record was accepted
+   ([KMax]: it only moves forward).  [KLast] is the tempting variant that overwrites it with the
+   epoch of every accepted record, i.e. remembers the epoch accepted LAST. *)
+Inductive keep := KMax | KLast.
+
+Definition sum_update (k : keep) (s : option N) (ep : N) : option N :=
+  match k, s with
+  | KMax, Some e => Some (N.max e ep)
+  | _, _ => Some ep
+  end.
+
+(* Conn.newestRecord over the summary: the first record of an epoch above the summary may be
+   numbered 0; a record of an epoch below the summary is never the newest *)
+Definition sum_verdict (s : option N) (ep seq : N) (latest : bool) : bool :=
+  let first := match s with None => true | Some e => e <? ep end in
+  let older := match s with None => false | Some e => ep <? e end in
+  if older || ((seq =? 0) && negb first) then false else latest.
+
+Record sstate := mkS { s_remote : N; s_wins : list (N * win); s_sum : option N }.
+
+Definition sinit (remote : N) : sstate := mkS remote [] None.
+
+Definition sadmit (st : sstate) (ep seq : N) : bool :=
+  (0 <? ep) && (ep <=? s_remote st) && check NMAXSEQ (win_of ep (s_wins st)) seq.
+
+Definition saccept (k : keep) (st : sstate) (ep seq : N) : sstate * bool :=
+  let '(w', latest) := accept NMAXSEQ (win_of ep (s_wins st)) seq in
+  (mkS (s_remote st) (win_set ep w' (s_wins st)) (sum_update k (s_sum st) ep),
+   sum_verdict (s_sum st) ep seq latest).
+
+Definition sremote (e : N) (st : sstate) : sstate :=
+  if s_remote st <? e then mkS e (s_wins st) (s_sum st) else st.
+
+Definition sstep (k : keep) (st : sstate) (ev : nevent) : sstate * option (N * N * bool) :=
+  match ev with
+  | NRecord ep seq =>
+      if sadmit st ep seq then
+        let '(st', v) := saccept k st ep seq in (st', Some (ep, seq, v))
+      else (st, None)
+  | NRemote e => (sremote e st, None)
+  end.
+
+Fixpoint srun (k : keep) (st : sstate) (evs : list nevent) : sstate * list (N * N * bool) :=
+  match evs with
+  | [] => (st, [])
+  | ev :: evs' =>
+      let '(st1, o) := sstep k st ev in
+      let '(st2, acc) := srun k st1 evs' in
+      (st2, match o with Some x => x :: acc | None => acc end)
+  end.
+
+(* the running maximum of a list of records in the order "epoch, then sequence number" *)
+Definition lex_ltb (a b : N * N) : bool :=
+  (fst a <? fst b) || ((fst a =? fst b) && (snd a <? snd b)).
+
+Fixpoint rmax (l : list (N * N)) : option (N * N) :=
+  match l with
+  | [] => None
+  | x :: l' => match rmax l' with
+               | None => Some x
+               | Some m => Some (if lex_ltb m x then x else m)
+               end
+  end.
+
+(* [p] is above the running maximum (anything is above the maximum of nothing) *)
+Definition above (p : N * N) (m : option (N * N)) : Prop :=
+  match m with None => True | Some q => lex_lt q p end.
+
+Definition rec_of (x : N * N * bool) : N * N := fst x.
+
+(* [s] is the maximum of the epochs [seenl] (None: no epoch yet) *)
+Definition SumOk (s : option N) (seenl : list N) : Prop :=
+  match s with
+  | None => seenl = []
+  | Some m => In m seenl /\ forall e, In e seenl -> e <= m
+  end.
